@@ -382,6 +382,37 @@ theorem split_code_breaks_validity :
     (vstep {} vSplit (.splitText 3 0)).1.ranges = [{ doc := 0, sc := 6, so := 1, ec := 2, eo := 2 }] ∧
     ValidRange (vstep {} vSplit (.splitText 3 0)).1.store { doc := 0, sc := 6, so := 1, ec := 2, eo := 2 } := by
   decide
+/-- **split_detached_code_breaks_validity.**  splitText of a PARENTLESS Text node: the new node is linked to nothing.  The model
+that mirrors the code as it is (`splitDetachedStays := false`: DOMRangeImpl::updateSplitInfo moves the points behind the split
+offset into the new node whether or not it is linked to the old one) leaves the range ["ABC"|0, "ABC"|3] with its boundary
+points in two different trees after splitText(1); with the rule of the Spec (the points stay in the old node, at its new end)
+the range stays valid. -/
+def vDetached : VState :=
+  { store := run (init 1) [.createText 0 [0x41, 0x42, 0x43]], ranges := [{ doc := 0, sc := 1, so := 0, ec := 1, eo := 3 }] }
+theorem split_detached_code_breaks_validity :
+    ValidRange vDetached.store { doc := 0, sc := 1, so := 0, ec := 1, eo := 3 } ∧
+    (vstep { splitDetachedStays := false } vDetached (.splitText 1 1)).1.ranges = [{ doc := 0, sc := 1, so := 0, ec := 2, eo := 2 }] ∧
+    ¬ ValidRange (vstep { splitDetachedStays := false } vDetached (.splitText 1 1)).1.store { doc := 0, sc := 1, so := 0, ec := 2, eo := 2 } ∧
+    (vstep {} vDetached (.splitText 1 1)).1.ranges = [{ doc := 0, sc := 1, so := 0, ec := 1, eo := 1 }] ∧
+    ValidRange (vstep {} vDetached (.splitText 1 1)).1.store { doc := 0, sc := 1, so := 0, ec := 1, eo := 1 } := by
+  decide
+/-- **insertNode_code_raises_after_split.**  insertNode with the start point inside the Text value of an attribute and an
+Element as new node: the model that mirrors the code as it is (`insertNodeChecksFirst := false`: DOMRangeImpl::insertNode
+calls splitText and only then insertBefore, which refuses an Element under an Attr) raises HIERARCHY_REQUEST_ERR with the text
+already split (one node more in the store, two children under the Attr); with the rule of the Spec (an operation that raises
+changes nothing) the same exception leaves everything as it was. -/
+def vAttr : VState :=
+  { store := run (init 1) [.createElement 0 [0x61], .appendChild 0 1, .setAttribute 1 [0x69] [0x41, 0x42, 0x43],
+                           .createElement 0 [0x62]],
+    ranges := [{ doc := 0, sc := 3, so := 1, ec := 3, eo := 1 }] }
+theorem insertNode_code_raises_after_split :
+    kindOf vAttr.store 2 = some .attr ∧ kids vAttr.store 2 = [3] ∧ kindOf vAttr.store 4 = some .element ∧
+    (vop { insertNodeChecksFirst := false } vAttr (.rInsert 0 4)).2 = .dom (.exc .hierarchy) ∧
+    kids (vop { insertNodeChecksFirst := false } vAttr (.rInsert 0 4)).1.store 2 = [3, 5] ∧
+    (vop {} vAttr (.rInsert 0 4)).2 = .dom (.exc .hierarchy) ∧
+    (vop {} vAttr (.rInsert 0 4)).1.store.size = vAttr.store.size ∧ kids (vop {} vAttr (.rInsert 0 4)).1.store 2 = [3] ∧
+    (vop {} vAttr (.rInsert 0 4)).1.ranges = vAttr.ranges := by
+  decide
 -- the in-text part of the fix-up (`range_fixup_spec`, last clause) is the same function in both: only points inside the old
 -- node move
 example : (vstep { splitKeepsAfter := false } { vSplit with ranges := [r34] } (.splitText 3 2)).1.ranges =
